@@ -218,6 +218,7 @@ var (
 		`null`, `true`, `false`, `0`, `-1`, `1.5`, `1e3`, `1e400`, `-0`, `9223372036854775807`, `9223372036854775808`,
 		`18446744073709551616`, `1e19`, `-1e19`, `4102444800`, `""`, `"x"`, `" "`, `"a b"`, `"{xff}"`, `"{xc0}"`, `"\ud800"`, `"\u0000"`,
 		`"{big70000}"`, `[]`, `[null]`, `[1]`, `["a",1]`, `["a",null]`, `[[]]`, `[{}]`, `["a","b"]`, `[true]`, `{}`, `{"a":1}`,
+		`[[],[]]`, `[{},{}]`, `["a","a"]`, `[1,1]`, `[null,null]`, `[["a"],["a"]]`, `[{"a":1},{"a":1}]`,
 		`{"sub":null}`, `{deeparr50}`, `{deepobj50}`, `{deepact40}`, `{"act":{"act":{"act":null}}}`, `{"act":[]}`, `{"act":"x"}`,
 	}
 	hostileBroken = []string{`,`, `nul`, `"unterminated`, `{`, `]`, `01`, `+1`, `NaN`, `'x'`, `{"a"}`, `[1,]`, `"\x"`, `tru`, `--1`, `1e`, ``}
@@ -229,10 +230,11 @@ var (
 	hostileAud = []string{
 		`[1]`, `["a",1]`, `[null]`, `["{cid}",null]`, `[["{cid}"]]`, `[{"a":"{cid}"}]`, `1`, `null`, `{}`, `{"0":"{cid}"}`, `true`, `""`, `[]`, `["{cid}","{cid}"]`,
 		`["{cid}","other"]`, `"{cid}"`, `["{xff}"]`, `[1.5,"{cid}"]`, `[true]`, `["{cid}",{}]`, `{deeparr30}`,
+		`[[],[]]`, `[{},{}]`, `["{cid}",[],[]]`, `["{cid}",{},{}]`, `[null,null]`, `[1,1]`, `[["{cid}"],["{cid}"]]`, `["{cid}","{cid}","{cid}"]`,
 	}
-	hostileLocale = []string{`"xx-invalid-locale-tag-that-is-long"`, `"en-"`, `"-"`, `"de_DE"`, `""`, `1`, `null`, `[]`, `{}`, `"{xff}"`, `"und"`, `"x-private"`, `"i-klingon"`, `"en-US-u-ca-gregory"`, `"{big300}"`, `["de","en"]`, `"de en"`, `[1]`, `["de",1]`, `[null]`, `" "`}
+	hostileLocale = []string{`"xx-invalid-locale-tag-that-is-long"`, `"en-"`, `"-"`, `"de_DE"`, `""`, `1`, `null`, `[]`, `{}`, `"{xff}"`, `"und"`, `"x-private"`, `"i-klingon"`, `"en-US-u-ca-gregory"`, `"{big300}"`, `["de","en"]`, `"de en"`, `[1]`, `["de",1]`, `[null]`, `" "`, `["de","de"]`, `"de de"`, `[[],[]]`, `[{},{}]`}
 	hostileBool   = []string{`"true"`, `"false"`, `1`, `0`, `null`, `"maybe"`, `[]`, `{}`, `"TRUE"`, `tru`}
-	hostileStrArr = []string{`"a b"`, `"a"`, `1`, `[1]`, `["a",1]`, `null`, `{}`, `[null]`, `[["a"]]`, `""`, `" "`, `"  a  "`, `["a b"]`, `true`}
+	hostileStrArr = []string{`"a b"`, `"a"`, `1`, `[1]`, `["a",1]`, `null`, `{}`, `[null]`, `[["a"]]`, `""`, `" "`, `"  a  "`, `["a b"]`, `true`, `["a","a"]`, `[[],[]]`, `[{},{}]`, `[null,null]`, `"a a"`}
 	hostileObj    = []string{`null`, `[]`, `"x"`, `1`, `{}`, `{"formatted":1}`, `{"locality":null}`, `{"act":{deepact40}}`, `{deepobj50}`, `true`}
 )
 
